@@ -549,7 +549,25 @@ def extract_model(m, inputs):
                 except Exception:
                     fi = None
                 d = {}
-                for k in range(-2, 300):
+                cand = set(range(-2, 300))
+                def nums(t, depth=0):
+                    if z3.is_int_value(t):
+                        cand.update(range(t.as_long() - 1, t.as_long() + 2))
+                    elif depth < 40:
+                        for ch in t.children():
+                            nums(ch, depth + 1)
+                try:
+                    nums(m.eval(dom, model_completion=True)); nums(m.eval(val, model_completion=True))
+                except Exception:
+                    pass
+                for (n2, k2, p2) in inputs:
+                    if k2 == 'int':
+                        v2 = m.eval(p2, model_completion=True)
+                        if z3.is_int_value(v2):
+                            cand.update(range(v2.as_long() - 2, v2.as_long() + 300))
+                for k in sorted(cand):
+                    if len(d) > 5000:
+                        break
                     if z3.is_true(m.eval(dom[k], model_completion=True)):
                         e = m.eval(val[k], model_completion=True).as_long()
                         d[k] = bool(e) if elem == 'bool' else e
